@@ -25,39 +25,49 @@ def gen_tokens(rnd):
             toks.append(rnd.choice(['-f', '--force']))
         elif k < 0.80:
             toks.append(rnd.choice(['-u', '--sequential']))
-        elif k < 0.88:
+        elif k < 0.86:
             toks.append(rnd.choice(['-n2', '-n 3'.split()[0] + '3', '-n1']))
+        elif k < 0.92:
+            toks.append(rnd.choice(['-t', '--test', '-t', '-tt']))
         else:
             # a cluster of short options
-            cl = ''.join(rnd.sample(['d', 'z', 'k', 'c', 'f', 'u', '4', '7'], rnd.randint(2, 4)))
+            cl = ''.join(rnd.sample(['d', 'z', 'k', 'c', 'f', 'u', '4', '7', 't'], rnd.randint(2, 4)))
             toks.append('-' + cl)
     return toks
 
 
 def model(name, tokens):
-    """Documented rules -> (decompress, to_stdout, level, keep)."""
+    """Documented rules -> (decompress, destination, level, keep); destination is 'file', 'stdout', 'discard' (-t: test
+    only, implies -k and decompression) or 'conflict' (-c and -t exclude each other: usage error).  -d / -z select the mode
+    and end test mode, so the last of -d, -z, -t decides."""
     dec = name in ('bunzip2', 'lbunzip2', 'bzcat', 'lbzcat')
-    out = name in ('bzcat', 'lbzcat')
+    out = 'stdout' if name in ('bzcat', 'lbzcat') else 'file'
     level = 9
     keep = False
+    LONG = {'decompress': 'd', 'compress': 'z', 'stdout': 'c', 'keep': 'k', 'fast': '1', 'best': '9', 'test': 't'}
     for t in tokens:
         if t.startswith('--'):
-            o = t[2:]
-            if o == 'decompress': dec = True
-            elif o == 'compress': dec = False
-            elif o == 'stdout': out = True
-            elif o == 'keep': keep = True
-            elif o == 'fast': level = 1
-            elif o == 'best': level = 9
+            chars = LONG.get(t[2:], '')
         elif t.startswith('-n'):
-            pass
+            chars = ''
         else:
-            for ch in t[1:]:
-                if ch == 'd': dec = True
-                elif ch == 'z': dec = False
-                elif ch == 'c': out = True
-                elif ch == 'k': keep = True
-                elif ch in '123456789': level = int(ch)
+            chars = t[1:]
+        for ch in chars:
+            if ch in 'dz':
+                dec = ch == 'd'
+                if out == 'discard':
+                    out = 'file'
+            elif ch == 'c':
+                if out == 'discard':
+                    return dec, 'conflict', level, keep
+                out = 'stdout'
+            elif ch == 't':
+                if out == 'stdout':
+                    return dec, 'conflict', level, keep
+                out = 'discard'
+                dec = True
+            elif ch == 'k': keep = True
+            elif ch in '123456789': level = int(ch)
     return dec, out, level, keep
 
 
@@ -89,7 +99,7 @@ def observe(r, snap, content):
 
 def run(ctx):
     ctx.rule = ('invocations of the real binary under the names lbzip2, bzip2, bunzip2, lbunzip2, bzcat, lbzcat and unrelated names (symlinks and '
-                'argv[0] override) with generated option tokens (short, clustered, long; repeated -d/-z; levels; -k/-c/-f/-u/-n) split between '
+                'argv[0] override) with generated option tokens (short, clustered, long; repeated -d/-z/-t; levels; -k/-c/-f/-u/-n) split between '
                 'LBZIP2, BZIP2, BZIP (spaces and tabs) and the command line, on one FILE operand; oracles: (i) env tokens == the same tokens '
                 'placed first on the command line, (ii) inserting documented no-op options (-q, --quiet, --repetitive-*, --exponential, -s, '
                 '--small) changes nothing, (iii) mode / destination / level / input removal per the documented model; non-trivial = distinct '
@@ -124,12 +134,21 @@ def run(ctx):
             return
         ob = observe(*base)
         # (iii) model
-        dec, to_stdout, level, keep = model(name, toks)
+        dec, dest, level, keep = model(name, toks)
+        to_stdout = dest == 'stdout'
         content = base[2]
         r, snap = base[0], base[1]
         problems = []
-        if r.rc != 0 or r.err:
+        if dest == 'conflict':
+            if r.rc != 1 or not r.err or r.out or sorted(snap) != ['x.dat']:
+                problems.append(('conflict', '-c with -t must be refused (exit 1, diagnostic, nothing written): exit %s stderr %r stdout %d bytes directory %s'
+                                 % (r.status, r.err[:100], len(r.out), sorted(snap))))
+        elif r.rc != 0 or r.err:
             problems.append(('status', 'exit %s stderr %r' % (r.status, r.err[:150])))
+        elif dest == 'discard':
+            if r.out or sorted(snap) != ['x.dat']:
+                problems.append(('destination', 'test mode (-t last) must write nothing and keep the operand: stdout %d bytes, directory %s'
+                                 % (len(r.out), sorted(snap))))
         else:
             res = r.out if to_stdout else None
             outname = 'x.dat.out' if dec else 'x.dat.bz2'
@@ -155,8 +174,8 @@ def run(ctx):
                     elif res[3] != 0x30 + level:
                         problems.append(('level', 'header digit %c, model says level %d' % (res[3], level)))
         if problems:
-            ctx.violation('model:%s:%s' % (problems[0][0], name), '; '.join(p[1] for p in problems[:3]) + ' | %s (model: decompress=%s stdout=%s level=%d keep=%s)'
-                          % (desc, dec, to_stdout, level, keep), None, info)
+            ctx.violation('model:%s:%s' % (problems[0][0], name), '; '.join(p[1] for p in problems[:3]) + ' | %s (model: decompress=%s destination=%s level=%d keep=%s)'
+                          % (desc, dec, dest, level, keep), None, info)
             return
         # (i) env tokens == leading command-line tokens
         twin = execute(lb, bindir, name, {}, toks, via_argv0, runmon)
@@ -177,8 +196,8 @@ def run(ctx):
             return
         ctx.nt((name, tuple(toks), cut, c1, c2))
         ctx.count('name:' + name)
-        ctx.count('mode:' + ('decompress' if dec else 'compress') + (':stdout' if to_stdout else ':file'))
-        ctx.sample(dict(desc, model=dict(decompress=dec, stdout=to_stdout, level=level, keep=keep)), cap=8)
+        ctx.count('mode:' + ('decompress' if dec else 'compress') + ':' + dest)
+        ctx.sample(dict(desc, model=dict(decompress=dec, destination=dest, level=level, keep=keep)), cap=8)
     core.pmap(one, jobs)
     shutil.rmtree(bindir, ignore_errors=True)
-    ctx.assumptions = ['only documented options are generated; -t, -v and -S are exercised elsewhere']
+    ctx.assumptions = ['only documented options are generated; -v and -S are exercised elsewhere']
